@@ -1,6 +1,7 @@
 package sim
 
 import (
+	"bytes"
 	"context"
 	"fmt"
 	"net"
@@ -74,6 +75,16 @@ func pageFrame(v primitive.ProtocolVersion, streamId int16, tag string, page, pa
 	return frame.NewFrame(v, streamId, rows)
 }
 
+// pageFramePadded is pageFrame with pad filler bytes after the tag (the tag ends at '|').
+func pageFramePadded(v primitive.ProtocolVersion, streamId int16, tag string, page, pages, pad int) *frame.Frame {
+	f := pageFrame(v, streamId, tag, page, pages)
+	if pad > 0 {
+		rows := f.Body.Message.(*message.RowsResult)
+		rows.Data[0][0] = append(append(rows.Data[0][0], '|'), bytes.Repeat([]byte{'x'}, pad)...)
+	}
+	return f
+}
+
 func pageTag(f *frame.Frame) string {
 	if f == nil || f.Body == nil {
 		return "<nil>"
@@ -81,7 +92,11 @@ func pageTag(f *frame.Frame) string {
 	switch m := f.Body.Message.(type) {
 	case *message.RowsResult:
 		if len(m.Data) == 1 && len(m.Data[0]) == 1 {
-			return string(m.Data[0][0])
+			cell := m.Data[0][0]
+			if i := bytes.IndexByte(cell, '|'); i >= 0 {
+				cell = cell[:i]
+			}
+			return string(cell)
 		}
 		return "<rows?>"
 	case *message.SetKeyspaceResult:
@@ -161,4 +176,16 @@ func markCompressed(T *Tape, f *frame.Frame) {
 	if f.Header.OpCode != primitive.OpCodeStartup && T.Bool("compressflag.direct", 0.5) {
 		f.Header.Flags = f.Header.Flags.Add(primitive.HeaderFlagCompressed)
 	}
+}
+
+// DrawStreamId draws a stream id for a generated frame: mostly small non-negative ids, sometimes the
+// edges of the version's range (one signed byte in v2, two bytes from v3 on) and -1 (server events).
+func DrawStreamId(T *Tape, v primitive.ProtocolVersion) int16 {
+	if T.Bool("stream.edge", 0.15) {
+		if v == primitive.ProtocolVersion2 {
+			return []int16{-1, -128, 127, -2}[T.Draw("stream.edgeval", 4)]
+		}
+		return []int16{-1, -32768, 32767, 255, 256, -129}[T.Draw("stream.edgeval", 6)]
+	}
+	return int16(T.Draw("stream", 120))
 }
